@@ -213,8 +213,13 @@ func (fr *Frame) applyContract(ins ssa.Instruction, fc *FuncContract, callee *ss
 		vc.havocAll(st)
 	default:
 		if !fc.Pure {
-			// callee may allocate and initialise new objects
-			vc.allocHavoc(st)
+			// The callee may allocate and initialise new objects. Allocation does not change the heap arrays: cells at
+			// addresses >= $alloc are unspecified (nothing is ever assumed about them), so the callee's postconditions about
+			// its fresh results simply constrain those cells. Only the watermark moves.
+			old := vc.stGet0(st, "$alloc")
+			na := vc.freshName("$alloc", "Int")
+			st.m["$alloc"] = na
+			vc.axiom(fmt.Sprintf("(>= %s %s)", na, old))
 		}
 		for _, m := range fc.Modifies {
 			tg, err := env.modTargets(m)
@@ -409,7 +414,7 @@ func (fr *Frame) builtin(ins ssa.Instruction, b *ssa.Builtin, c *ssa.CallCommon,
 	case "len":
 		switch u := c.Args[0].Type().Underlying().(type) {
 		case *types.Slice:
-			return []string{fmt.Sprintf("(s.len %s)", args[0])}
+			return []string{slLen(args[0])}
 		case *types.Basic:
 			if d.sortOf(u) == "String" {
 				return []string{fmt.Sprintf("(str.len %s)", args[0])}
@@ -450,8 +455,8 @@ func (fr *Frame) builtin(ins ssa.Instruction, b *ssa.Builtin, c *ssa.CallCommon,
 		na := vc.fresh("app", "(Array Int "+es+")")
 		var tlen, tsel string
 		if d.sortOf(c.Args[1].Type()) == "Slice" {
-			tlen = fmt.Sprintf("(s.len %s)", t)
-			tsel = fmt.Sprintf("(select (select %s (s.arr %s)) (+ (s.off %s) (- i (s.len %s))))", heap, t, t, s)
+			tlen = slLen(t)
+			tsel = fmt.Sprintf("(select (select %s %s) %s)", heap, slArr(t), slIdx(t, fmt.Sprintf("(- i %s)", slLen(s))))
 		} else {
 			// append([]byte, string...)
 			vc.note("append of string bytes abstracted")
@@ -460,12 +465,12 @@ func (fr *Frame) builtin(ins ssa.Instruction, b *ssa.Builtin, c *ssa.CallCommon,
 			tlen = tl
 			tsel = ""
 		}
-		vc.axiom(fmt.Sprintf("(forall ((i Int)) (! (=> (and (<= 0 i) (< i (s.len %s))) (= (select %s i) (select (select %s (s.arr %s)) (+ (s.off %s) i)))) :pattern ((select %s i))))", s, na, heap, s, s, na))
+		vc.axiom(fmt.Sprintf("(forall ((i Int)) (! (=> (and (<= 0 i) (< i %s)) (= (select %s i) (select (select %s %s) %s))) :pattern ((select %s i))))", slLen(s), na, heap, slArr(s), slIdx(s, "i"), na))
 		if tsel != "" {
-			vc.axiom(fmt.Sprintf("(forall ((i Int)) (! (=> (and (<= (s.len %s) i) (< i (+ (s.len %s) %s))) (= (select %s i) %s)) :pattern ((select %s i))))", s, s, tlen, na, tsel, na))
+			vc.axiom(fmt.Sprintf("(forall ((i Int)) (! (=> (and (<= %s i) (< i (+ %s %s))) (= (select %s i) %s)) :pattern ((select %s i))))", slLen(s), slLen(s), tlen, na, tsel, na))
 		}
 		vc.stSet(st, h, fmt.Sprintf("(store %s %s %s)", heap, ref, na))
-		nl := fmt.Sprintf("(+ (s.len %s) %s)", s, tlen)
+		nl := fmt.Sprintf("(+ %s %s)", slLen(s), tlen)
 		nc := vc.fresh("appcap", "Int")
 		vc.axiom(fmt.Sprintf("(>= %s %s)", nc, nl))
 		return []string{fmt.Sprintf("(mk-slice %s 0 %s %s)", ref, nl, nc)}
